@@ -629,12 +629,13 @@ def exec (st : St) (task cmd : String) : St :=
     -- `accept()` (also inside `conn.WT`) runs `poll_control`, hence `poll_accept_recv`
     | "A" => let st := pollRecv st; { st with pendingBidi := st.pendingBidi.drop 1 }
     | "dgs" =>
-      -- the sender's answer names the `SendDatagramError` variant (C18): a transport connection error is wrapped in
-      -- `Remote` whatever it is; the specification wants the name the connection reports it under (C05) when it is the
-      -- connection's first error - they differ for the idle timeout (finding D-18b)
+      -- the sender's answer names the `SendDatagramError` variant (C18): a transport connection error goes through
+      -- `handle_quic_stream_error` like every other handle's, so the answer is the connection's FIRST error under the name
+      -- the connection reports it (C05; D-18b repaired): the error h3 raised itself if there is one, else the transport's
       if let some e := st.connErr then
-        let m := if e == "timeout" then "conn.dgs=err:conn:remote:timeout" ++ (if st.localErr.isNone then "#D-18b" else "")
-                 else s!"conn.dgs=err:conn:{e}"
+        let m := match st.localErr with
+          | some (n, _) => s!"conn.dgs=err:conn:local:{n}"
+          | none => s!"conn.dgs=err:conn:{e}"
         st.log m (if st.localErr.isNone then s!"conn.dgs=err:conn:{e}" else "conn.dgs=err:*") else
       match st.connect, parseHex arg with
       | some c, some p =>
